@@ -264,6 +264,46 @@ whatever `argvals_stand` was before. -/
 theorem setArg_restores_stand {x y : Grid} {a : ArgV} (hx : GridInvNoStand x) (h : setArg x a = .ok y) :
     GridInv y := setArg_inv hx h
 
+/-! ## The computed standardised points track the sampling points pointwise -/
+
+/-- `argvals_stand` as computed by the constructor / the `argvals` setter has exactly as many points as
+the sampling points — also for a grid with a repeated point or an unsorted grid — … -/
+theorem normalize_length {t s : List ℚ} (h : normalizeGrid t = some s) : s.length = t.length := by
+  obtain ⟨lo, hi, _, _, _, _, rfl⟩ := normalizeGrid_spec h
+  simp
+
+/-- … is the affine image `(t − min) / (max − min)` point by point, in the same order, with values in
+`[0, 1]`, the minimum going to 0 and the maximum to 1, … -/
+theorem normalize_pointwise {t s : List ℚ} (h : normalizeGrid t = some s) :
+    ∃ lo hi, lo ∈ t ∧ hi ∈ t ∧ lo < hi ∧
+      (∀ (i : Nat) (hi' : i < t.length) (hs : i < s.length), s[i] = (t[i] - lo) / (hi - lo) ∧ 0 ≤ s[i] ∧ s[i] ≤ 1) ∧
+      (0 : ℚ) ∈ s ∧ (1 : ℚ) ∈ s := by
+  obtain ⟨lo, hi, hlo, hhi, hlt, hb, rfl⟩ := normalizeGrid_spec h
+  have hpos : 0 < hi - lo := by linarith
+  refine ⟨lo, hi, hlo, hhi, hlt, ?_, ?_, ?_⟩
+  · intro i hi' hs
+    have := hb _ (List.getElem_mem hi')
+    have e : (t.map fun x => (x - lo) / (hi - lo))[i] = (t[i] - lo) / (hi - lo) := by simp
+    rw [e]
+    refine ⟨rfl, div_nonneg (by linarith) hpos.le, ?_⟩
+    rw [div_le_one hpos]; linarith
+  · exact List.mem_map.2 ⟨lo, hlo, by simp⟩
+  · exact List.mem_map.2 ⟨hi, hhi, by rw [div_self (ne_of_gt hpos)]⟩
+
+/-- … and keeps order and ties: `t_i ≤ t_j ↔ s_i ≤ s_j` (so an unsorted grid stays unsorted the same
+way and a repeated point stays repeated — nothing is dropped or re-ordered). -/
+theorem normalize_order {t s : List ℚ} (h : normalizeGrid t = some s) (i j : Nat)
+    (hi : i < t.length) (hj : j < t.length) (hi' : i < s.length) (hj' : j < s.length) :
+    t[i] ≤ t[j] ↔ s[i] ≤ s[j] := by
+  obtain ⟨lo, hi2, _, _, hlt, _, rfl⟩ := normalizeGrid_spec h
+  have hpos : 0 < hi2 - lo := by linarith
+  simp only [List.getElem_map]
+  rw [div_le_div_iff_of_pos_right hpos]
+  constructor <;> intro h' <;> linarith
+
+example : normalizeGrid [0, 1/2, 1/2, 1, 2] = some [0, 1/4, 1/4, 1/2, 1] := by
+  simp [normalizeGrid, listMin, listMax, pickMin, pickMax]; norm_num
+
 /-! ## Inherited list operations outside the property's list, and basis data -/
 
 /-- `del mfd[i]`, `mfd + […]`, `mfd * k`, `mfd *= k`, `sort` keep a consistent multivariate
